@@ -21,7 +21,8 @@ FIELD_KINDS = ["scalar", "scalar+constraints", "scalar+constraints+nullable", "s
                "ref-to-struct", "ref-to-enum+default", "ref-to-constant", "ref-to-constant-other-package",
                "ref-to-constant+optional", "ref-to-constant-other-package+nullable", "ref-to-constant-via-alias",
                "constant_ref", "array", "map", "struct", "enum+default", "disj", "inter", "slot", "ref-unresolved"]
-OBJECT_KINDS = ["struct", "alias-of-struct", "alias-chain-of-struct", "alias-of-enum", "alias-of-constant", "alias-of-array",
+OBJECT_KINDS = ["struct", "alias-of-struct", "alias-chain-of-struct", "alias-chain-crossing-packages-of-struct",
+                "alias-chain-crossing-packages-of-scalar", "alias-of-enum", "alias-of-constant", "alias-of-array",
                 "enum", "scalar", "constant", "array", "map", "disj"]
 
 
@@ -100,7 +101,7 @@ def run(ctx):
         "distinct_nontrivial": judged,
         "rule": "one evaluation = one schema set (a TLC state) on which the real BuilderGenerator.FromAST ran and was compared, conjunct by "
                 "conjunct, with Derive(S), and whose real result was judged again by TLC (C16Violated); schema sets: object Main with one "
-                "field kind or an ordered pair of two of 28 field kinds x 5 surroundings (plain; aliases of structs / alias chains / aliases of "
+                "field kind or an ordered pair of two of 28 field kinds x 6 surroundings (plain; alias chains whose second hop crosses into a loaded second package next to same-named objects of another kind; aliases of structs / alias chains / aliases of "
                 "enums and constants declared before their targets; non-struct objects; second package not loaded; alias of an unloaded "
                 "object); non-trivial = judged (the 'alias of an unloaded object' surroundings make FromAST panic and are out of scope: "
                 "C05 guarantees resolvable references)",
@@ -109,7 +110,7 @@ def run(ctx):
         "out_of_scope": s["out_of_scope"],
         "observations_for_other_properties": s["observations_for_other_properties"],
         "binding_selftest": binding,
-        "samples": s["samples"][:2] or [{"note": "no sample drawn"}],
+        "samples": (s["samples"] or [])[:2] or [{"note": "no sample drawn"}],
         "checker_cmd": "tlc BuildersMC/BuildersMC16.cfg (%s); worker c16-replay; tlc BuildersTrace" % (
             "pairs slice %d/%d" % (ctx.seed % NSLICES, NSLICES) if quick else "all pairs"),
     })
